@@ -4,14 +4,14 @@ CW = 'tdda/serial/csvw.py'
 PI = 'tdda/serial/pandasio.py'
 
 VARIANTS = [
-    M('C16', 'revert-fix-F19-header-key', E(CW, "        header = self.get_val(dialect, 'header')\n        self.header_rows", "        header = self.get_val(dialect, 'headerRowCount')\n        self.header_rows"), rule='C16-DKEYS', key='header<-headerRowCount'),
+    M('C16', 'revert-fix-F19-header-key', E(CW, "        header = self.get_val(dialect, 'header')\n        self.header_rows", "        header = self.get_val(dialect, 'headerRowCount')\n        self.header_rows"), rule='C16-DKEYS', key='header-rows'),
     M('C16', 'fraction-step-dropped', E(CW, "           .replace('SSS', 'S')\n", ""), rule='C16-CHAIN', key='csvw_date_format'),
     M('C16', 'minutes-before-months', E(CW, "           .replace('MM', 'M')\n           .replace('M', '%m')\n           .replace('yyyy', '%Y')\n           .replace('yy', '%y')\n           .replace('HH', '%H')\n           .replace('mm', '%M')", "           .replace('mm', '%M')\n           .replace('MM', 'M')\n           .replace('M', '%m')\n           .replace('yyyy', '%Y')\n           .replace('yy', '%y')\n           .replace('HH', '%H')"),
       rule='C16-CHAIN', key='csvw_date_format'),
     M('C16', 'seconds-before-fraction', E(CW, "           .replace('SSS', 'S')\n           .replace('SS', 'S')\n           .replace('S', '%f')\n           .replace('ss', '%S')", "           .replace('ss', '%S')\n           .replace('SSS', 'S')\n           .replace('SS', 'S')\n           .replace('S', '%f')"),
       rule='C16-CHAIN', key='csvw_date_format'),
     M('C16', 'two-digit-year-maps-to-four', E(CW, "           .replace('yy', '%y')", "           .replace('yy', '%Y')"), rule='C16-CHAIN', key='csvw_date_format'),
-    M('C16', 'header-rows-defaulted-with-or', E(CW, "        self.header_rows = 0 if header == False else nvl(header_rows, 1)", "        self.header_rows = 0 if header == False else (header_rows or 1)"), rule='C16-DKEYS', key='header_rows or 1'),
+    M('C16', 'header-rows-defaulted-with-or', E(CW, "        self.header_rows = 0 if header == False else nvl(header_rows, 1)", "        self.header_rows = 0 if header == False else (header_rows or 1)"), rule='C16-DKEYS', key='header-rows'),
     M('C16', 'integer-read-as-float', E(PI, "    'int': 'Int64',", "    'int': 'float',"), rule='C16-TYPES', key='type:integer'),
     M('C16', 'csvw-type-without-dtype', E(CW, "    'double': 'number',", "    'double': 'double',"), rule='C16-TYPES', key='closed'),
     M('C16', 'dates-get-a-dtype', E(PI, "        if f.name not in date_fields\n        and MTYPE_TO_PANDAS_DTYPE.get(f.mtype) is not None", "        if MTYPE_TO_PANDAS_DTYPE.get(f.mtype) is not None"), rule='C16-TYPES', key='read_csv-arguments'),
@@ -63,5 +63,5 @@ VARIANTS += [
 
 VARIANTS += [
     M('C16', 'titles-equal-to-the-name-dropped', E(CW, "                if isinstance(titles, list):\n                    field.altnames = titles", "                if isinstance(titles, list):\n                    field.altnames = [t for t in titles if t != name]"),
-      rule='C16-TITLES', key='altnames'),
+      rule='C16-TITLES', key='titles:'),
 ]
